@@ -5,6 +5,7 @@ from .common import (Ob, AnalysisError, call_name, dotted, kwarg, get_arg, names
                      contains_nf, calls_in, calls_named, method_calls_on, floor, norm_guards, loop_paths, fn_paths,
                      calls_at_node, const_value, PARAM, strip_not, KINDS, ARITY, kind_of, is_none_test, is_self_attr)
 from verif_sa.core import FileObj
+from .common import eq_const, guard_eq
 from verif_sa.dataflow import header_exprs
 from verif_sa.cfg import block_always_exits
 
@@ -128,7 +129,7 @@ def A9_companion_index_lists(repo, clause):
             if len(ds) == 1:
                 d = next(iter(ds))
                 if isinstance(d, ast.Assign) and isinstance(d.value, ast.Call):
-                    args_attrs = [a.attr for a in ast.walk(d.value) if is_self_attr(a)]
+                    args_attrs = [a.attr for a in ast.walk(expand(fn, d.value)) if is_self_attr(a)]
                     src = [a for a in args_attrs if a == T[k]["tuples"]]
                     foreign = [a for a in args_attrs if kind_of(a) not in (None, k)]
                     ok = bool(src) and not foreign
@@ -282,9 +283,13 @@ def A12_extend_bookkeeping(repo, clause):
         obs.append(Ob("A12", clause, fn, n, ok, "rows appended to self.%s come from other.%s (%s)" % (a, a, ast.unparse(v.args[1])[:60]),
                       slot="source:%s" % a))
     # offset read before any store to self.positions
-    offs = [n for n in fn.own_nodes() if isinstance(n, ast.Assign) and isinstance(n.value, ast.Call) and call_name(n.value) == "len"
-            and n.value.args and (is_self_attr(n.value.args[0], "positions") or (isinstance(n.value.args[0], ast.Name) and n.value.args[0].id == "self"))
-            and len(n.targets) == 1 and isinstance(n.targets[0], ast.Name)]
+    offs = []
+    for n in fn.own_nodes():
+        if isinstance(n, ast.Assign) and isinstance(n.value, ast.Call) and call_name(n.value) == "len" and n.value.args \
+                and len(n.targets) == 1 and isinstance(n.targets[0], ast.Name):
+            a0 = expand(fn, n.value.args[0])
+            if is_self_attr(a0, "positions") or (isinstance(a0, ast.Name) and a0.id == "self"):
+                offs.append(n)
     if len(offs) != 1:
         raise AnalysisError("A12: atom index offset (len(self.positions) read) not found uniquely in extend")
     off = offs[0]
@@ -842,9 +847,9 @@ def A18_cli_wiring(repo, clause):
     def dispatch_types(f):
         out = set()
         for n in f.own_nodes():
-            if isinstance(n, ast.Compare) and isinstance(n.left, ast.Name) and n.left.id == "filetype" and isinstance(n.ops[0], ast.Eq) \
-                    and isinstance(n.comparators[0], ast.Constant):
-                out.add(n.comparators[0].value)
+            e = eq_const(n) if isinstance(n, ast.Compare) else None
+            if e is not None and e[2] and isinstance(e[0], ast.Name) and e[0].id in f.params and isinstance(e[1], str):
+                out.add(e[1])
         return out
     for which, f, var in (("input", load, "inputpath"), ("output", save, "outputpath")):
         lits = None
